@@ -103,6 +103,16 @@ func init() {
 	engines["decode"] = &engine{Exec: execDecode, Gen: func(c *ctx) {
 		names := []string{"a", "A", "b", "", "a b", "x%41", "k=", "n&m", "é", "\xff", "c+d", "%", "%4", "q#r", "long_name_1"}
 		for i := 0; i < c.n; i++ {
+			if c.arg == "bodyerr" {
+				// C20: bodies whose processing fails or nearly fails (JSON nesting around the depth limit with
+				// later siblings, malformed multipart) — the failure has to show in REQBODY_ERROR
+				if i%3 == 0 {
+					genDecodeMP(c)
+				} else {
+					genDecodeJSON(c)
+				}
+				continue
+			}
 			if i%4 == 1 {
 				genDecodeJSON(c)
 				continue
